@@ -1,5 +1,6 @@
 """C01 -- binary codecs round-trip (structural necessary conditions; DESIGN.md section 4 C01)."""
 import ast
+import re
 
 from ..model import AnalysisError, Model, walk_no_nested, norm_stmt
 from .. import flow, protocol, dispatch, replay, siblings
@@ -25,6 +26,12 @@ DER = 'asn1tools/codecs/der.py'
 def is_abstract(f):
     body = [s for s in f.body if not (isinstance(s, ast.Expr) and isinstance(s.value, ast.Constant))]
     return len(body) == 1 and isinstance(body[0], ast.Raise) and 'NotImplementedError' in ast.unparse(body[0])
+
+
+# method-name based (the receiver may be called member / optional / addition / ...)
+NOT_IS_DEFAULT = re.compile(r'not\s+[\w\.\[\]]+\.is_default\(')
+IS_DEFAULT = re.compile(r'[\w\.\[\]]+\.is_default\(')
+DEFAULT_IS_NONE = re.compile(r'[\w\.\[\]]+\.default is None')
 
 
 def check(ctx):
@@ -131,11 +138,11 @@ def check(ctx):
             ok = False
             for t, pol in gs:
                 s = ast.unparse(t)
-                if pol and ('not member.is_default(' in s or 'member.default is None' in s):
+                if pol and (NOT_IS_DEFAULT.search(s) or DEFAULT_IS_NONE.search(s)):
                     ok = True
-                if (not pol) and ('member.is_default(' in s and 'not member.is_default(' not in s):
+                if (not pol) and (IS_DEFAULT.search(s) and not NOT_IS_DEFAULT.search(s)):
                     ok = True
-                if pol and 'isinstance(member, AnyDefinedBy)' in s:
+                if pol and re.search(r'isinstance\([\w\.]+, AnyDefinedBy\)', s):
                     ok = True
             if ok:
                 guarded += 1
@@ -146,7 +153,7 @@ def check(ctx):
                               'encoded although the decoder/canonical form expects it to be absent (or the presence bit says absent)', stmt=norm_stmt(Model.enclosing_stmt(c)))
     for rel in (PER, OER):
         f = model.func(rel, 'MembersType.encode_root')
-        ok = any(isinstance(c, ast.Call) and ast.unparse(c.func).endswith('append_bit') and 'not optional.is_default(' in ast.unparse(c) for c in walk_no_nested(f))
+        ok = any(isinstance(c, ast.Call) and ast.unparse(c.func).endswith('append_bit') and NOT_IS_DEFAULT.search(ast.unparse(c)) for c in walk_no_nested(f))
         ctx.instance('C01.R3', '%s presence bit of a DEFAULT member = not is_default(value)' % Model.qual(f), 'ok' if ok else 'VIOLATION', node=f, file=rel)
         if not ok:
             ctx.violation('C01.R3', rel, f, Model.qual(f), 'the presence bit of a DEFAULT member is no longer `not is_default(value)`: bitmap and encoded members disagree', stmt='default presence bit')
@@ -185,24 +192,21 @@ def check(ctx):
     enc, dec = c.methods.get('encode_additions'), c.methods.get('decode_additions')
     if enc is None or dec is None:
         raise AnalysisError('oer.MembersType.encode_additions/decode_additions vanished')
-    rng = range(1, 65)
     bad = None
-    checked = 0
-    for n in rng:
-        try:
-            e = replay.Slice(enc, {'len(self.additions)': n}, replay.stream_param(enc, 'enc'), 'enc').run()
-            if len(e.tokens) < 3:
-                raise AnalysisError('oer encode_additions: expected >= 3 stream tokens, got %d' % len(e.tokens))
-            d = replay.Slice(dec, {}, replay.stream_param(dec, 'dec'), 'dec', tokens=e.tokens).run()
-            checked += 1
-            widths = [w for k, w, tok, _ in d.reads if k == 'FIELD' and w is not replay.UNKNOWN]
-            if n not in widths:
-                bad = (n, 'the decoder reads a presence bitmap of %s bits, the encoder wrote %d' % (widths, n))
-                break
-        except replay.Mismatch as ex:
-            bad = (n, str(ex))
+    checked = undecided = 0
+    for n in range(1, 65):
+        verdict, detail, _hdr = replay.bitmap_replay(enc, dec, n)
+        if verdict == 'bad':
+            bad = (n, detail)
             break
-    ctx.instance('C01.R4', 'oer.MembersType extension bitmap, %d addition counts replayed' % checked, 'ok' if bad is None else 'VIOLATION', node=enc, file=OER)
+        if verdict == 'ok':
+            checked += 1
+        else:
+            undecided += 1
+            if undecided == 1:
+                ctx.note('C01.R4 undecided for %d additions: %s' % (n, detail))
+    ctx.instance('C01.R4', 'oer.MembersType extension bitmap, %d addition counts replayed, %d undecided' % (checked, undecided),
+                 'ok' if bad is None and checked else ('undecided' if bad is None else 'VIOLATION'), nontrivial=checked > 0, node=enc, file=OER)
     if bad is not None:
         ctx.violation('C01.R4', OER, enc, 'asn1tools/codecs/oer.py::MembersType.encode_additions <-> decode_additions',
                       'with %d extension additions: %s -- the additions of such a SEQUENCE are lost or misparsed' % bad, stmt='extension bitmap width')
@@ -212,14 +216,17 @@ def check(ctx):
     checked = 0
     for b in range(0, 65):
         try:
-            e = replay.Slice(enc, {'data[1]': b, 'self.number_of_bits': None}, replay.stream_param(enc, 'enc'), 'enc').run()
+            e = replay.Slice(enc, {'data[1]': b, 'data': (None, b), 'self.number_of_bits': None}, replay.stream_param(enc, 'enc'), 'enc').run()
             d = replay.Slice(dec, {'self.number_of_bits': None}, replay.stream_param(dec, 'dec'), 'dec', tokens=e.tokens).run()
             checked += 1
             nb = e.env.get('number_of_bytes')
             rb = [w for k, w, tok, _ in d.reads if k == 'BYTES']
             ret = d.ret
-            if not (isinstance(ret, tuple) and ret[-1] == b):
-                bad = (b, 'the decoder derives %s bits' % (ret[-1] if isinstance(ret, tuple) else ret,))
+            if not isinstance(ret, tuple) or ret[-1] is replay.UNKNOWN or d.desync:
+                checked -= 1      # the returned bit count is not a closed expression for the slice: undecided
+                continue
+            if ret[-1] != b:
+                bad = (b, 'the decoder derives %s bits' % (ret[-1],))
                 break
             if rb and rb[0] is not replay.UNKNOWN and nb is not replay.UNKNOWN and rb[0] != nb:
                 bad = (b, 'the decoder reads %s content octets, the encoder wrote %s' % (rb[0], nb))
@@ -227,7 +234,10 @@ def check(ctx):
         except replay.Mismatch as ex:
             bad = (b, str(ex))
             break
-    ctx.instance('C01.R4', 'oer.BitString length/unused-bits arithmetic, %d bit counts replayed' % checked, 'ok' if bad is None else 'VIOLATION', node=enc, file=OER)
+    ctx.instance('C01.R4', 'oer.BitString length/unused-bits arithmetic, %d of 65 bit counts replayed' % checked,
+                 'ok' if bad is None and checked else ('undecided' if bad is None else 'VIOLATION'), nontrivial=checked > 0, node=enc, file=OER)
+    if bad is None and not checked:
+        ctx.note('C01.R4 BitString arithmetic is not in a shape the slice interpreter follows: undecided')
     if bad is not None:
         ctx.violation('C01.R4', OER, enc, 'asn1tools/codecs/oer.py::BitString.encode <-> decode', 'for a BIT STRING of %d bits: %s' % bad, stmt='bit string width')
 
